@@ -3,7 +3,7 @@ defect8: an attribute used as a condition (its truth value) is translated to the
 of the attribute only for numbers and booleans: a non-empty string, an enum member and a non-empty list of builtins
 (stored as JSON) are true in memory, the bare text column is false in SQL.
 
-Run:  cd /tmp/hunt2/C07 && PYTHONPATH=/tmp/hunt2/C07/src:/tmp/hunt2/C07 /venv/bin/python HUNT/defect8.py
+Run:  cd /tmp/hunt2/C07 && PYTHONPATH=/repo/src:/tmp/hunt2/C07 /venv/bin/python HUNT/defect8.py
 Exits non-zero when the translated statement and the in-memory evaluation disagree (the defect is present).
 """
 import importlib, os, sys, tempfile, warnings
